@@ -294,12 +294,8 @@ Theorem C10_all_forms_one_shift_per_child : forall r,
   rd_wf r -> zlen (rd_shifts r) = rd_nchildren r.
 Proof. exact rd_shifts_length. Qed.
 
-(* NOT proved here (DESIGN 5, C10 item 5, `C10_enough_for_productivity`): that a
-   rule set accepted by the forest's `pumps` can be evaluated without ever
-   asking for an unavailable term.  It needs C03's `derivable` and the
-   specification evaluator of C01; the two facts it rests on are
-   C10_all_forms_reads_respect_declared_shifts (children) and its `m < n` clause
-   (own terms) above. *)
+(* The property's second sentence ("Hence whatever the fixed-point analysis accepts ...") is
+   C10_enough_for_productivity, at the end of this file (it needs C03's `pumps` and C01's descriptors). *)
 
 (* ------------------------------------------------------------ non-vacuity *)
 (* a reverse product rule that does read its own earlier terms, a sibling and
@@ -668,6 +664,77 @@ Proof.
   - apply (C10_one_factor_reads_respect_declared_shifts 3 d_atom 4 0 4); [lia|vm_compute; intuition].
 Qed.
 
+From CSS Require Import Forest.Spec Forest.Model Forest.TerminationDefs Forest.TerminationRun Forest.Run
+  Spec.CountRun Spec.Adapter Spec.AdapterExample Spec.ReadsAvailable.
+
+(* ------------------------------------------------------------ the property's second sentence *)
+(* "Hence whatever the fixed-point analysis accepts as productive can be evaluated without a class ever
+   depending on a term that is not yet available."  (DESIGN 5, C10 item 5; proved in
+   Spec/ReadsAvailable.v.)  `avail ds c n` is the well-founded evaluation order along the ACTUAL requests
+   (reads_of: rule_reads of the constructor forms 0..3, the one read (child 0, n) of the derived forms 4..6,
+   nothing for a verified class): the term (c, n) is available when every term its rule asks for - a
+   child's, or its own earlier one - is available; no shift occurs in its definition.  For every descriptor
+   list ds (what run_c01 evaluates; deps_shape is decided per case by Spec/Deciders.v deps_shapeb) and every
+   key set the analysis received whose keys come from ds (children of the key include the declared
+   dependencies of the parent's descriptor): every class C03's `pumps` accepts has ALL its terms available.
+   = pumps_ev_sub (C03's derivable => evaluable along the DECLARED shifts) + C10_reads_respect_declared_shifts
+   (within the declared shifts => everything that is read).  That the evaluation then returns the TRUE
+   counts is C01_spec_correct_constructors. *)
+Theorem C10_enough_for_productivity : forall (ds : list cdesc) (keys : list fkey),
+  (forall c d, nth_error ds c = Some d -> deps_shape d) ->
+  (forall k, In k keys -> exists d, nth_error ds (parent k) = Some d /\ incl (c_deps d) (kids k)) ->
+  forall c, pumps keys c -> forall n, 0 <= n -> avail ds c n.
+Proof. intros ds keys Hs Hk. exact (reads_available ds Hs keys Hk). Qed.
+
+(* what availability means, one step unfolded *)
+Theorem C10_available_means_every_read_available : forall (ds : list cdesc) c n, avail ds c n ->
+  exists d, nth_error ds c = Some d /\
+    forall p m, In (p, m) (reads_of d n) -> 0 <= m -> avail ds (target c d p) m.
+Proof. exact avail_reads. Qed.
+
+(* covers C10_enough_for_productivity: the seven-class specification of Spec/AdapterExample.v (a union, a
+   product, a reverse union = Complement, a reverse product = Quotient with NEGATIVE declared shifts, three
+   verified classes); its keys are what forest_key() hands over; the table-method model (C03, proved sound
+   and complete) says every class pumps; hence every term is available - e.g. the Quotient's term of size 4,
+   which asks for the ORIGINAL parent at size 5 *)
+Definition c10_keys : list fkey := map (fun cd => mkkey (fst cd) (c_deps (snd cd))) (combine (seq 0 7) ex_ds).
+Lemma c10_keys_sub : forall k, In k c10_keys ->
+  exists d, nth_error ex_ds (parent k) = Some d /\ incl (c_deps d) (kids k).
+Proof.
+  intros k Hin. unfold c10_keys in Hin. simpl in Hin.
+  repeat (destruct Hin as [<-|Hin]; [eexists; split; [reflexivity|apply incl_refl]|]). destruct Hin.
+Qed.
+Lemma c10_pumps : forall c, (c < 7)%nat -> pumps c10_keys c.
+Proof.
+  intros c Hc.
+  assert (E : c10_keys = keys_of (map AddKey c10_keys)).
+  { unfold c10_keys. simpl. reflexivity. }
+  rewrite E. apply (proj1 (total_sound_complete pick0 (map AddKey c10_keys) c)).
+  do 7 (destruct c as [|c]; [vm_compute; reflexivity|]). lia.
+Qed.
+Example C10_enough_for_productivity_nonvacuous : forall c n, (c < 7)%nat -> 0 <= n -> avail ex_ds c n.
+Proof.
+  intros c n Hc Hn.
+  exact (C10_enough_for_productivity ex_ds c10_keys ex_shapes c10_keys_sub c (c10_pumps c Hc) n Hn).
+Qed.
+Example C10_quotient_reads_ahead_and_is_available :
+  In (0, 5) (reads_of ex_d6 4) /\ target 6 ex_d6 0 = 2%nat /\ avail ex_ds 2 5.
+Proof.
+  split; [vm_compute; auto 10|]. split; [reflexivity|].
+  apply C10_enough_for_productivity_nonvacuous; lia.
+Qed.
+(* near miss: a class whose only rule asks for ITS OWN term of the same size (declared shift 0 on itself) is
+   not accepted by the analysis - and indeed its term of size 0 is not available *)
+Definition c10_loop : list cdesc := [mkC 4 0 [] [Spec.AdapterExample.kY] 0 [0%nat] [(0%nat, 0)] [] [] 0].
+Example C10_loop_not_available : ~ avail c10_loop 0 0.
+Proof.
+  intros H. remember 0%nat as c eqn:Ec. remember 0 as n eqn:En.
+  induction H as [c d n Hd Hr IH]. subst c n.
+  simpl in Hd. injection Hd as <-.
+  apply (IH 0 0); [vm_compute; auto|lia|reflexivity|reflexivity].
+Qed.
+
+
 Print Assumptions C10_compositions_sound.
 Print Assumptions C10_compositions_spec.
 Print Assumptions C10_compositions_no_parts.
@@ -690,3 +757,5 @@ Print Assumptions C10_one_factor_product_shifts.
 Print Assumptions C10_one_factor_product_reads.
 Print Assumptions C10_quotient_no_sibling_reads.
 Print Assumptions C10_one_factor_reads_respect_declared_shifts.
+Print Assumptions C10_enough_for_productivity.
+Print Assumptions C10_available_means_every_read_available.
